@@ -20,7 +20,7 @@ RULE = (
     "non-trivial = repeated single-agent measurements / unequal chains / >=2 samples present"
 )
 ASSUMPTIONS = ["correlation cases whose centred prediction row is (nearly) identically zero (length below 1e-13: 0/0 diagonal) are detected and skipped; for near-replicate samples (lengths 1e-13 .. 1e-9) the tolerance on the entries grows with 2e-14 / length, the diagonal stays at 1e-9"]
-REQUIRED = {"correlation_cases_near_replicate_samples": {"quick": 10, "thorough": 250}, "synergy_cases_with_integer_observations": {"quick": 60, "thorough": 1500}, "analysis_cli_runs": {"quick": 8, "thorough": 80}, "evaluation_cases": {"quick": 300, "thorough": 8000}, "single_effect_cases": {"quick": 300, "thorough": 8000}, "single_effect_cases_with_sparse_ids": {"quick": 80, "thorough": 2000}, "synergy_cases": {"quick": 300, "thorough": 8000}, "correlation_cases": {"quick": 60, "thorough": 1500}, "combinatoric_space_cases": {"quick": 100, "thorough": 2500}}
+REQUIRED = {"correlation_cases_with_permuted_supplied_mappings": {"quick": 40, "thorough": 800}, "correlation_cases_near_replicate_samples": {"quick": 10, "thorough": 250}, "synergy_cases_with_integer_observations": {"quick": 60, "thorough": 1500}, "analysis_cli_runs": {"quick": 8, "thorough": 80}, "evaluation_cases": {"quick": 300, "thorough": 8000}, "single_effect_cases": {"quick": 300, "thorough": 8000}, "single_effect_cases_with_sparse_ids": {"quick": 80, "thorough": 2000}, "synergy_cases": {"quick": 300, "thorough": 8000}, "correlation_cases": {"quick": 60, "thorough": 1500}, "combinatoric_space_cases": {"quick": 100, "thorough": 2500}}
 N_CASES = {"quick": 1920, "thorough": 24000}
 
 
@@ -253,7 +253,21 @@ def run_shard(rec, tier, seed, shard, nshards):
                         kw["treatment_doses"][r_, c_] = 0.5
                     rec.count("correlation_cases_named_control")
                 screen = Screen(**kw)
-                variant = str(rng.choice(["whole", "superset-mapping", "view"]))
+                variant = str(rng.choice(["whole", "superset-mapping", "view", "permuted-mapping"]))
+                if variant == "permuted-mapping":
+                    # mappings supplied by the caller whose ids do not follow the listing order (the constructor follows
+                    # them verbatim)
+                    smap_, tmap_ = screen.sample_mapping, screen.treatment_mapping
+                    s_ids = np.asarray(smap_[1]).copy()
+                    s_ids = s_ids[rng.permutation(len(s_ids))]
+                    t_ids = np.asarray(tmap_[2]).copy()
+                    nc_ = np.flatnonzero(t_ids >= 0)
+                    t_ids[nc_] = t_ids[nc_][rng.permutation(len(nc_))]
+                    try:
+                        screen = Screen(treatment_mapping=(np.asarray(tmap_[0]).copy(), np.asarray(tmap_[1]).copy(), t_ids), sample_mapping=(np.asarray(smap_[0]).copy(), s_ids), **kw)
+                        rec.count("correlation_cases_with_permuted_supplied_mappings")
+                    except Exception as e:
+                        rec.did_not_return("permuted-mapping", e)
                 if variant != "whole" and screen.size >= 4:
                     keep = rng.random(screen.size) < 0.6
                     if keep.sum() >= 2 and len(set(str(x) for x in screen.sample_names[keep])) >= 2:
